@@ -126,6 +126,8 @@ def _secs(ms, offset=0):
 
 
 def project_doc(doc):
+    if isinstance(doc.get("_source"), dict):  # a buffered bulk action that wraps the document (e.g. to give it an _id)
+        doc = doc["_source"]
     kind = "value" if doc.get("name") == "vm" else "doc"
     rid = doc.get("value") if kind == "value" else doc.get("vid")
     return {
@@ -151,7 +153,11 @@ def project_doc(doc):
     }
 
 
-def project_run(raw, group, proj=None):
+def _unwrap(doc):
+    return doc["_source"] if isinstance(doc, dict) and isinstance(doc.get("_source"), dict) else doc
+
+
+def project_run(raw, group, proj=None, key=_unwrap):
     """raw documents -> records of the specification.  Consecutive equal raw documents are projected once.  Grouped executions: a run
     of `group` identical documents is ONE record of the specification; a remainder shows as a record with a negated id (which no
     invariant accepts)."""
@@ -161,8 +167,9 @@ def project_run(raw, group, proj=None):
     n = len(raw)
     while i < n:
         r0 = raw[i]
+        k0 = key(r0)
         j = i + 1
-        while j < n and raw[j] == r0:
+        while j < n and key(raw[j]) == k0:
             j += 1
         rec = proj(r0)
         cnt = j - i
@@ -456,17 +463,22 @@ class Session:
         import elasticsearch
 
         pairs = [(operations[i], operations[i + 1]) for i in range(0, len(operations) - 1, 2)]
-        parsed = {}
+        ids = {}
+        bodies = {}
 
-        def parse(pair):
-            if pair not in parsed:
-                action = json.loads(pair[0])
-                rec = project_doc(json.loads(pair[1]))
-                parsed[pair] = (action.get("index", action.get("create", {})).get("_id"), rec)
-            return parsed[pair]
+        def doc_id(action):
+            if action not in ids:
+                a = json.loads(action)
+                ids[action] = a.get("index", a.get("create", {})).get("_id")
+            return ids[action]
 
-        recs = project_run(pairs, self.group, proj=lambda pr: parse(pr)[1])
-        docs = [parse(pr) for pr in pairs]  # (_id, record) per document
+        def record(body):
+            if body not in bodies:
+                bodies[body] = project_doc(json.loads(body))
+            return bodies[body]
+
+        recs = project_run(pairs, self.group, proj=lambda pr: record(pr[1]), key=lambda pr: pr[1])
+        docs = [(doc_id(pr[0]), record(pr[1])) for pr in pairs]  # (_id, record) per document
         if self.cur is None:
             self.stray += 1
             for doc_id, rec in docs:
